@@ -191,8 +191,8 @@ def _extract(b: Built):
     order = sorted(porder.keys(), key=lambda t: porder[t])
     b.porder = [bid(t) for t in order]
     b.flat["porder"] = b.porder
-    mbt = sorted((bid(t), [bid(m) for m in ms]) for t, ms in mm.methods_by_transaction.items())
-    tbm = sorted((bid(m), [bid(t) for t in ts]) for m, ts in mm.transactions_by_method.items())
+    mbt = sorted((bid(t), sorted(bid(m) for m in ms)) for t, ms in mm.methods_by_transaction.items())
+    tbm = sorted((bid(m), sorted(bid(t) for t in ts)) for m, ts in mm.transactions_by_method.items())
     edges = sorted({(min(bid(a), bid(x)), max(bid(a), bid(x))) for a, adj in cgr.items() for x in adj})
     ccl = sorted(sorted(bid(t) for t in cc) for cc in ccs)
 
